@@ -13,6 +13,9 @@ recovery and fallback error response).
     then every entry of that rule whose exceptions do not match writes one line holding the
     recorder's status and size.  A panic of the inner handler leaves the function before any line
     is written.
+  * the rule is chosen on the path the middleware receives and the `except` test runs on a copy of
+    the URL taken before the inner handler is called: a handler that rewrites the path (in place or
+    by replacing `r.URL`) does not influence which logs get a line (`Outcome.newPath` is unused).
   * the recorder keeps the first final status written (a Write without WriteHeader leaves the
     initial 200) and adds up the bytes of every Write; 1xx headers are not recorded.
   * the client side is net/http's ResponseWriter: the first final WriteHeader (or the first Write,
@@ -71,6 +74,11 @@ structure Outcome where
   ops    : List Op
   ret    : Nat
   panics : Bool
+  /-- the handler (or a directive between `log` and it: rewrite, ext, internal) may leave the
+  request with another path, by assigning `r.URL.Path` in place or by replacing `r.URL`.
+  `Logger.ServeHTTP` took a COPY of the URL before calling it (`preURL := *r.URL`) and decides on
+  that copy, so nothing below reads this field. -/
+  newPath : Option PathB := none
 deriving Repr, DecidableEq
 
 /-- what the client receives -/
@@ -165,8 +173,8 @@ def serverServe (m : PathB → PathB → Bool) (errLen : Nat → Nat) (rules : L
 the handler: it answers a returned status >= 400 itself (through the writer it was given, i.e. the
 recorder) and recovers a panic with a 500; either way it returns 0. -/
 def withErrors (errLen : Nat → Nat) (o : Outcome) : Outcome :=
-  if o.panics then { ops := o.ops ++ errorOps errLen 500, ret := 0, panics := false }
-  else if o.ret ≥ 400 then { ops := o.ops ++ errorOps errLen o.ret, ret := 0, panics := false }
+  if o.panics then { o with ops := o.ops ++ errorOps errLen 500, ret := 0, panics := false }
+  else if o.ret ≥ 400 then { o with ops := o.ops ++ errorOps errLen o.ret, ret := 0, panics := false }
   else o
 
 /-- `httpserver.Path.Matches` on clean paths (no `.`/`..`/empty segments — what the stream
